@@ -70,6 +70,8 @@ def rename_case(draw):
                 used.add(c['money']['code'])
             if c['deposit'] is not None:
                 used.add(c['deposit']['code'])
+            if c.get('bonds') is not None:
+                used.add(c['bonds']['code'])
             for code in cands:
                 change = draw(st.sampled_from([True, True, False]))
                 plan.append((zi, ci, code, change))
@@ -100,7 +102,7 @@ def structural_map(built, spec, rename=None):
         table = {}
         # asset markets are referred to by their short code throughout the zone
         for key2, sec2 in built.sectors.items():
-            if key2[0] == zi and key2[2] in ('money', 'deposit'):
+            if key2[0] == zi and key2[2] in ('money', 'deposit', 'bonds'):
                 table[sec2.Code] = 'S%d.%d.%s' % key2
         # sectors of the same country are referred to by their short code
         for key2, sec2 in built.sectors.items():
